@@ -467,7 +467,13 @@ func main() {
 					}
 					res := callWithTimeout(evalEnv, compiled[fi], f.res, at, vl0, 300*time.Millisecond)
 					if res == "T" {
-						// the abandoned goroutine still owns evalEnv
+						// the abandoned goroutine still owns evalEnv; a loaded machine can make a healthy call slow,
+						// so only a second, much longer wait counts as non-termination
+						evalEnv = env.GetEvalEnv()
+						tr.entries = nil
+						res = callWithTimeout(evalEnv, compiled[fi], f.res, at, vl0, 3*time.Second)
+					}
+					if res == "T" {
 						evalEnv = env.GetEvalEnv()
 						timeouts++
 						nt = t + 1 // no further tuples for this function
